@@ -73,6 +73,24 @@ ROUND4_FIX = {
  "C14h": "block devices were always named by their node -> cells with the device behind a symbolic link",
  "C16g": "compress never started with a stale temp file in C16 -> state 'stale temp file of an interrupted run' in the compress grid",
 }
+ROUND5_FIX = {
+ "C01i": "the binary leg of C01 fed compress from files and stdin only -> every 5th file case through a named pipe given with -i",
+ "C05i": "the LD_PRELOAD leg never combined --seed-output with a seed file -> two such scenarios (the seed's chunk lands on a chunk the output still needs elsewhere)",
+ "C06i": "reads of a LOCAL archive were observed at library level only -> the real binary under strace: every byte read from the archive file lies in the header or in the stored range of a missing chunk",
+ "C06j": "seed == source was cloned for sources whose last chunk was long enough -> 14 source lengths under RollSum so that the last chunk is shorter than the minimum, seed file and stdin seed, requests observed at the server",
+ "C07i": "the chunk_stream leg used archives whose chunk data follows the header directly -> every subset again with 100 bytes of slack (header re-encoded by the independent encoder)",
+ "C08j": "the retry budget was passed alone -> also next to --http-timeout and --http-header",
+ "C09i": "the differential leg compared two clones that share the archive's chunker configuration -> D0: a clone seeded with the source itself must take every byte from the seed (compress-time == clone-time chunking), incl. configurations with the minimum below the window",
+ "C09j": "(same) 13 source lengths per configuration so that the last chunk is shorter than the minimum",
+ "C10i": "C10 had no observation at the command line -> new = P1+S cloned with old = P2+S as prior output: bytes fetched stay below |P1| + 4 maximal chunks",
+ "C10j": "(same leg) old = P2+S as seed file, |P2| > |P1|",
+ "C11i": "the input sweep wrote into a sink that takes whole buffers -> sinks taking 5 bytes or 1 byte per write call (as C12's delivery sweep since round 4)",
+ "C13i": "read answers of the in-memory device had no transient error -> a read cut short and followed by ErrorKind::Interrupted at each of the first 12 reads of in-place scenarios, judged by the write oracle",
+ "C14i": "no cell used the archive of an empty source -> fourth archive in the CLI grid",
+ "C14j": "HTTP cells never carried a retry budget -> --http-retry-count / --http-timeout on half of the HTTP cells (both values for every state x flag subset)",
+ "C16i": "in-place cycles moved chunks of 1 KiB -> 2 MiB chunks in a cycle, local and HTTP, under strace",
+ "C16j": "the output never had a second hard link -> mode in-place-hardlink (both names must still be one file afterwards)",
+}
 # written by the agents, confirmed to change behaviour, but judged NOT to break the property as stated: not kept
 REJECTED = {
  "C13d": "--force-create truncates the prior output before it is scanned: the scan then finds nothing in place, so the statement (about locations the scan found) holds vacuously; the author's own notes say so",
@@ -80,7 +98,7 @@ REJECTED = {
 }
 rows = []
 for pid in [f"C{i:02d}" for i in range(1, 18)]:
-    for v in "abcdefgh":
+    for v in "abcdefghij":
         d = f"/tmp/seed/{pid}"
         if not os.path.exists(f"{d}/{v}.eval.json"):
             continue
@@ -96,14 +114,15 @@ for pid in [f"C{i:02d}" for i in range(1, 18)]:
         key = f"{pid}{v}"
         fpj = f"{d}/{v}.trial.quick.firstpass.json"
         missed = key in FIRST_PASS_MISSED
-        if v in "cdefgh" and os.path.exists(fpj):
+        if v in "cdefghij" and os.path.exists(fpj):
             fp = json.load(open(fpj))
             missed = fp.get(pid, {}).get("rc") != 1
             meta["first_pass_checks_commit"] = ("49a2c6c (the checks as they stood before the second round of seeded changes)" if v in "cd"
                                                 else "bcaeac9 (the checks as they stood before the third round of seeded changes)" if v in "ef"
-                                                else "f656d4f (the checks as they stood before the fourth round of seeded changes)")
+                                                else "f656d4f (the checks as they stood before the fourth round of seeded changes)" if v in "gh"
+                                                else "c549579 (the checks as they stood before the fifth round of seeded changes)")
         if missed:
-            meta["first_pass"] = "missed by the target property's check; strengthened: " + FIRST_PASS_MISSED.get(key, ROUND2_FIX.get(key, ROUND3_FIX.get(key, ROUND4_FIX.get(key, "see DESIGN.md section 9"))))
+            meta["first_pass"] = "missed by the target property's check; strengthened: " + FIRST_PASS_MISSED.get(key, ROUND2_FIX.get(key, ROUND3_FIX.get(key, ROUND4_FIX.get(key, ROUND5_FIX.get(key, "see DESIGN.md section 9")))))
         else:
             meta["first_pass"] = "caught by the target property's check as it stood when the change was written"
         json.dump(meta, open(meta_p, "w"), indent=1)
